@@ -322,6 +322,45 @@ func runC20(p *load.Program, r *core.Report) {
 		}
 	}
 
+	// ---- K6 calendar steps are calendar arithmetic
+	{
+		rule6 := "C20.K6 calendar-arithmetic"
+		r.Floor(rule6, 1)
+		key := "C20.K6|mask-evaluation"
+		inst := "whether a minute matches a day/month rule is computed with calendar operations (AddDate, Date), never by adding a duration: a day is not always 24 hours in the job's time zone"
+		var bad []string
+		cal := 0
+		for _, g := range funcsOfPkgs(p, "node") {
+			if g.Name() != "IsRunAt" || g.Signature.Recv() == nil || !strings.HasPrefix(namedOf(g.Signature.Recv().Type()), "node.cron") {
+				continue
+			}
+			eachInstr(g, func(in ssa.Instruction) {
+				cc := callCommon(in)
+				if cc == nil {
+					return
+				}
+				sf := staticCallee(cc)
+				if sf == nil || sf.Pkg == nil || sf.Pkg.Pkg.Path() != "time" || sf.Signature.Recv() == nil || namedOf(sf.Signature.Recv().Type()) != "time.Time" {
+					return
+				}
+				switch sf.Name() {
+				case "Add", "Sub", "Truncate", "Round":
+					bad = append(bad, fmt.Sprintf("%s calls Time.%s at %s", fname(g), sf.Name(), p.Pos(in.Pos())))
+				case "AddDate":
+					cal++
+				}
+			})
+		}
+		switch {
+		case len(bad) > 0:
+			r.Bad(rule6, key, "node.cronMask.IsRunAt", "", inst, strings.Join(bad, "; ")+": around a daylight-saving change the computed day falls into the neighbouring month and the job fires on a wrong day (or not at all)")
+		case cal == 0:
+			r.Unk(rule6, key, "", "", inst, "no calendar operation found in the mask evaluation: the rule no longer sees the code")
+		default:
+			r.OK(rule6, key, "node.cronMask.IsRunAt", "", inst, fmt.Sprintf("%d AddDate call(s), no duration arithmetic", cal))
+		}
+	}
+
 	// ---- K2
 	rule2 := "C20.K2 add-job"
 	r.Floor(rule2, 1)
